@@ -131,7 +131,7 @@ theorem c06_dispatch_entity_agrees (w : Disp.W) (p : Nat) (e : List Nat) (W : Wo
       let r := W.stepG Cfg.clean p .part (addMsg e ty d feats)
       AgreeD (r.1.trees p) (w'.peers p).feats ∧ r.1.subs = w'.subs.map toRED ∧ r.1.binds = w'.binds.map toRED) := by
   constructor
-  · obtain ⟨h1, h2, h3⟩ := dispatch_entRem_proj w p e ctr ack hc
+  · obtain ⟨h1, h2, h3⟩ := dispatch_entRem_proj w p e ctr ack hc h0
     obtain ⟨g1, g2, g3⟩ := dispatch_entRem_agrees w p e W he h0 hcfg hsub hbind hA hF
     simp only at h1 h2 h3 g1 g2 g3 ⊢
     rw [h1, h2, h3]
@@ -180,10 +180,11 @@ example : sT.alive.contains 1 = true ∧ WT.csubs.map toBook = sT.csubs ∧ WT.c
 /-! ## where the other models leave the code's behaviour (the C06 model was run against the real code on each) -/
 
 /-- DISAGREEMENT 1 (input: partial notification of peer 1 listing [0] as removed = op `entRem 1 [0]` /
-    `Reg.dropEntity … [0]`): the dispatch world and the registry model remove the device-information entity — the peer
-    is not `connected` any more —, the repaired code and the C06 model keep it. -/
+    `Reg.dropEntity … [0]`): the registry model removes the device-information entity, the repaired code and the C06
+    model keep it. The dispatch world agrees with the code since `Disp.processEntRem` skips a removal entry for [0]
+    (`Disp.remGo`; first conjunct, formerly `= false`: the peer stays `connected`). -/
 theorem c06_agree_boundary_devInfo :
-    Disp.connected (Disp.step wD (.entRem 1 [0] 7 true)).1 1 = false ∧
+    Disp.connected (Disp.step wD (.entRem 1 [0] 7 true)).1 1 = true ∧
     ((Reg.dropEntity Reg.Cfg.clean sT.reg 1 [0]).rem 1).map (·.ent) = [[1], [2]] ∧
     addrs ((WD.stepG Cfg.clean 1 .part (remMsg [0])).1.trees 1) = [[0], [1], [2]] := by decide
 
